@@ -746,6 +746,8 @@ class Explorer:
     # ------------------------------------------------------ calls with effects
     TRACE = "@trace"
 
+    SKIP = object()
+
     def _trace_calls(self, node, env):
         hits = []
         for root in (node.cover or [node.ast]):
@@ -754,6 +756,9 @@ class Explorer:
                     q = self.repo.call_target(self.func.module, self.func, c)
                     if q in self.call_trace:
                         hits.append((getattr(c, "_ord", 0), q, c))
+                    elif isinstance(c.func, ast.Attribute) and ("." + c.func.attr) in self.call_trace:
+                        # a method traced by its name, whatever object it is called on (`<x>.sock.setblocking(..)`)
+                        hits.append((getattr(c, "_ord", 0), "." + c.func.attr, c))
         if not hits:
             return env
         env = dict(env)
@@ -763,6 +768,10 @@ class Explorer:
                 v = self.call_trace[q](self, c, env)
             except Exception:
                 v = UNKNOWN
+            if v is self.SKIP:
+                continue            # (a call of that name the rule is not interested in)
+            if v is UNKNOWN and tr and tr[-1] == (q, "U"):
+                continue            # (one "something unknown went there" is enough: a loop of unknown length must converge)
             tr = tr + ((q, "U" if v is UNKNOWN else v),)
         env[self.TRACE] = tr
         return env
@@ -781,6 +790,15 @@ class Explorer:
         if call is None or self.enter_depth <= 0:
             return None
         q = self.repo.call_target(self.func.module, self.func, call)
+        if (not q or not self.repo.has_func(q)) and isinstance(call.func, ast.Attribute) and HEAP in env:
+            # a method of a heap object whose class the rule gave: resolved along that class's MRO
+            try:
+                rv0 = self.ev(call.func.value, env)
+            except EvalRaise:
+                rv0 = None
+            if isinstance(rv0, Ref) and rv0._cls and self.repo.has_cls(rv0._cls):
+                m0 = self.repo.lookup_method(rv0._cls, call.func.attr)
+                q = m0.qualname if m0 is not None else q
         if not q or not self.repo.has_func(q) or not self.enter(q):
             return None
         callee = self.repo.func(q)
@@ -791,9 +809,18 @@ class Explorer:
             return None
         params = [x.arg for x in a.args]
         on_self = callee.cls is not None and params and params[0] == "self" and isinstance(call.func, ast.Attribute) and isinstance(call.func.value, ast.Name) and call.func.value.id == "self"
-        if callee.cls is not None and not on_self:
+        recv_ref = None
+        if callee.cls is not None and not on_self and params and params[0] == "self" and isinstance(call.func, ast.Attribute) and HEAP in env:
+            # a method called on a heap object the rule supplied (`conn.init()` with conn a Ref): the callee's `self` is that object
+            try:
+                rv = self.ev(call.func.value, env)
+            except EvalRaise:
+                rv = None
+            if isinstance(rv, Ref):
+                recv_ref = rv
+        if callee.cls is not None and not on_self and recv_ref is None:
             return None
-        names = params[1:] if on_self else params
+        names = params[1:] if (on_self or recv_ref is not None) else params
         if len(call.args) > len(names):
             return None
         env2 = {}
@@ -801,6 +828,8 @@ class Explorer:
             if k in (HEAP, self.TRACE) or (on_self and k.startswith("self.")) or (k.startswith("gunicorn.") and "." in k) or k.isupper():
                 env2[k] = v
         bound = set()
+        if recv_ref is not None:
+            env2["self"] = recv_ref
         for nm, arg in zip(names, call.args):
             env2[nm] = self.ev(arg, env)
             bound.add(nm)
@@ -1253,6 +1282,21 @@ class Explorer:
                         if l == lab:
                             stack.append((b, env2, events, path, None))
                     continue
+                # an iteration over something unknown: the loop variables hold unknown values in the body (not what an earlier
+                # loop left in them)
+                env_u = dict(env)
+                # (a rule that starts the exploration *at* the loop head has preset the loop variables itself)
+                for tt, vv in ([] if first else _bind(node.ast.target, UNKNOWN)):
+                    k = self.key_of(tt)
+                    if k is not None and (k in env_u or k in self.tracked):
+                        env_u[k] = UNKNOWN
+                for b, l in node.out:
+                    if l == "exc" and not self.follow_implicit_exc:
+                        continue
+                    if only_label is not None and l != only_label:
+                        continue
+                    stack.append((b, env_u if l == "true" else env, events, path, None))
+                continue
             if self.enter is not None and node.kind == "stmt":
                 succ = self._enter_call(node, env)
                 if succ is not None:
